@@ -457,7 +457,11 @@ func (mc *ManualConn) AwaitReconfigAcks(n int, d time.Duration) bool {
 }
 
 // IsProxyClosed reports whether the proxy closed its end.
-func (mc *ManualConn) IsProxyClosed() bool { mc.mu.Lock(); defer mc.mu.Unlock(); return mc.ProxyClosed != 0 }
+func (mc *ManualConn) IsProxyClosed() bool {
+	mc.mu.Lock()
+	defer mc.mu.Unlock()
+	return mc.ProxyClosed != 0
+}
 
 // SendLoginPluginRequest sends a login plugin request (own encoding); the stamp is taken
 // before the write.
@@ -505,4 +509,78 @@ func (mc *ManualConn) SendJoin() error {
 	mc.JoinSentAt = Now()
 	mc.mu.Unlock()
 	return mc.Send(MakeJoinGame(mc.Proto, mc.EntityID))
+}
+
+// ---------------------------------------------------------------------------------------
+// a client that does not leave the login phase by itself
+
+// NewClientHoldingLoginAck is NewClient for the login-phase monitors: a 1.20.2+ client records
+// the login success but does NOT acknowledge it (so it stays in the login state, where login
+// plugin requests can still reach it and be answered) until the returned release function is
+// called, which sends LoginAcknowledged and moves the client to configuration. Older clients
+// behave as with NewClient (the login success itself ends their login phase); release is a
+// no-op for them.
+func (h *Harness) NewClientHoldingLoginAck(o ClientOpts) (c *Client, release func() error) {
+	proxyEnd, clientEnd := lib.Pipe()
+	if o.RemoteAddr != nil {
+		proxyEnd.SetAddrs(&net.TCPAddr{IP: net.IPv4(10, 0, 0, 1), Port: 25565}, o.RemoteAddr)
+	} else {
+		h.mu.Lock()
+		h.nextPort++
+		port := h.nextPort
+		h.mu.Unlock()
+		proxyEnd.SetAddrs(&net.TCPAddr{IP: net.IPv4(10, 0, 0, 1), Port: 25565}, &net.TCPAddr{IP: net.IPv4(10, 1, byte(port>>8), byte(port)), Port: port})
+	}
+	c = &Client{H: h, AutoKeepAlive: true, joinCh: make(chan struct{}, 64), successCh: make(chan struct{}), handleDone: make(chan struct{})}
+	c.Peer = newPeer("client", clientEnd, proto.ClientBound, proto.ServerBound, o.Protocol)
+	c.Peer.OnPacket = func(r *Rec) {
+		if pk, ok := r.Packet.(*packet.ServerLoginSuccess); ok && r.State == states.LoginState && c.Proto >= 764 {
+			c.mu.Lock()
+			first := c.LoginSuccess == nil
+			if first {
+				c.LoginSuccess = pk
+				c.LoginSuccessAt = r.At
+			}
+			c.mu.Unlock()
+			if first {
+				close(c.successCh)
+			}
+			return
+		}
+		c.onPacket(r)
+	}
+	c.Secret = make([]byte, 16)
+	h.mu.Lock()
+	h.clients = append(h.clients, c)
+	h.mu.Unlock()
+	c.start()
+	go func() { h.P.HandleConn(proxyEnd); close(c.handleDone) }()
+	var once sync.Once
+	release = func() (err error) {
+		once.Do(func() {
+			if c.Proto < 764 {
+				return
+			}
+			// the proxy sends configuration packets only after it has the acknowledgement
+			c.Peer.rstateSet(state.Config)
+			err = c.Send(&packet.LoginAcknowledged{})
+			c.SetWriteState(state.Config)
+		})
+		return err
+	}
+	return c, release
+}
+
+// LoginSuccesses counts the login success packets the client received in the login state.
+func (c *Client) LoginSuccesses() (n int, firstAt int64, firstSeq int) {
+	firstSeq = -1
+	for _, r := range c.Log() {
+		if _, ok := r.Packet.(*packet.ServerLoginSuccess); ok && r.State == states.LoginState {
+			if n == 0 {
+				firstAt, firstSeq = r.At, r.Seq
+			}
+			n++
+		}
+	}
+	return n, firstAt, firstSeq
 }
